@@ -199,7 +199,7 @@ def add_cb(fut, fid, cbid):
 
 
 def do_shutdown(ex, tag="top", wait=True, **kw):
-    E.emit("ShutdownCall", s=tag, a=1 if wait else 0)
+    E.emit("ShutdownCall", s=tag, a=1 if wait else 0, b=1 if kw.get("cancel_futures") else 0, c=len(kw))
     E.upoint()
     try:
         ex.shutdown(wait, **kw)
